@@ -262,9 +262,11 @@ fn extract_templates(file: Bytes) -> TemplateMap {
         if file.get(file.len().saturating_sub(1)) == Some(&LF) {
             trim += 1;
         }
+        let start = start_byte.take().unwrap();
         templates.insert(
             name.to_compact_string(),
-            file.slice(start_byte.take().unwrap()..file.len() - trim),
+            // the last template can be empty: the line break after its name is then both skipped and trimmed
+            file.slice(start..(file.len() - trim).max(start)),
         );
     }
 
